@@ -274,7 +274,7 @@ class SInt(SVal):
         if t is None:
             return NotImplemented
         if isinstance(o, SInt):
-            return SInt(MOD(self.t, t))
+            return SInt(MOD(canon_mod_arg(self.t, t), t))
         return SInt(self.t % t)
 
     def __rmod__(self, o):
@@ -509,13 +509,81 @@ def imod(x, m):
         return x % m if m > 0 else 0
     if not isinstance(m, SVal):
         return SInt(T(x) % m)
-    return SInt(MOD(T(x), T(m)))
+    return imod_uf(x, m)
+
+
+def _z3_to_poly(t, m, atoms):
+    """integer z3 term -> sympy polynomial; inner imod(u, m) with the same modulus are opened (u = imod(u, m) mod m)"""
+    import sympy as sp
+    if z3.is_int_value(t):
+        return sp.Integer(t.as_long())
+    if z3.is_app(t):
+        k = t.decl().kind()
+        ch = t.children()
+        if k == z3.Z3_OP_ADD:
+            return sum((_z3_to_poly(c, m, atoms) for c in ch), sp.Integer(0))
+        if k == z3.Z3_OP_SUB:
+            r = _z3_to_poly(ch[0], m, atoms)
+            for c in ch[1:]:
+                r = r - _z3_to_poly(c, m, atoms)
+            return r
+        if k == z3.Z3_OP_MUL:
+            r = sp.Integer(1)
+            for c in ch:
+                r = r * _z3_to_poly(c, m, atoms)
+            return r
+        if k == z3.Z3_OP_UMINUS:
+            return -_z3_to_poly(ch[0], m, atoms)
+        if t.decl().name() == "imod" and len(ch) == 2 and ch[1].eq(m):
+            return _z3_to_poly(ch[0], m, atoms)
+    if t.eq(m):
+        return sp.Integer(0)
+    key = "t%d" % t.get_id()
+    atoms[key] = t
+    return sp.Symbol(key)
+
+
+def canon_mod_arg(t, m):
+    """canonical representative of t modulo m as a polynomial over the non-arithmetic subterms: x mod m terms built
+    from congruent polynomials become syntactically equal (ring normalisation done here, not by the solver)"""
+    import sympy as sp
+    atoms = {}
+    try:
+        poly = sp.expand(_z3_to_poly(t, m, atoms))
+    except Exception:
+        return t
+    if poly.is_number:
+        return z3.IntVal(int(poly))
+    terms = sp.Add.make_args(poly)
+
+    def mono(e):
+        c, rest = e.as_coeff_Mul()
+        fs = []
+        for f in sp.Mul.make_args(rest):
+            b, ex_ = f.as_base_exp()
+            if b == 1:
+                continue
+            fs.extend([atoms[str(b)]] * int(ex_))
+        fs.sort(key=lambda z: z.get_id())
+        r = None
+        for f in fs:
+            r = f if r is None else r * f
+        ci = int(c)
+        if r is None:
+            return z3.IntVal(ci)
+        return r if ci == 1 else z3.IntVal(ci) * r
+    zs = sorted([mono(e) for e in terms], key=lambda z: str(z))
+    r = zs[0]
+    for z in zs[1:]:
+        r = r + z
+    return r
 
 
 def imod_uf(x, m):
     if not _anysym(x, m):
         return x % m if m > 0 else 0
-    return SInt(MOD(T(x), T(m)))
+    tm = T(m)
+    return SInt(MOD(canon_mod_arg(T(x), tm), tm))
 
 
 def imin(a, b):
